@@ -601,3 +601,64 @@ def h_generic(case, pick, st, stats):
         return None
     why = expect(case, fn, st, stats, to_value=val)
     return None if why is None else "%s via the Python layer: %s" % (act, why)
+
+
+# ------------------------------------------------------------------ C18 (Python half): ak.partitioned / ak.repartition (src/awkward/partition.py)
+def h_c18_partition(case, pick, st, stats):
+    """one Partition.tla behaviour through the Python layer's IrregularlyPartitionedArray: every observation equals the same
+    observation of the whole array"""
+    import virtual as vmod
+    ak, ext = st["ak"], st["ext"]
+    n = case["stops"][-1]
+    whole = ak.Array(ext._box(_fix_shape(pick(vmod.PART_EAGERS)(n))))
+    stops = list(case["stops"])
+    P = ak.partitioned([whole[a:b] for a, b in zip([0] + stops[:-1], stops)])
+
+    def both(f):
+        out = []
+        for x in (P, whole):
+            try:
+                out.append((1, f(x)))
+            except (ValueError, IndexError) as e:
+                out.append((0, type(e).__name__))
+            except Exception as e:
+                return "not an ordinary exception: %s: %s" % (type(e).__name__, str(e)[:160]), None
+        return None, out
+
+    for i, h in enumerate(case["steps"]):
+        op = h["op"]
+        if op == "repartition":
+            lens = [b - a for a, b in zip([0] + h["stops"][:-1], h["stops"])]
+            P = ak.repartition(P, lens)
+            got = [len(p) for p in P.layout.partitions] if hasattr(P.layout, "partitions") else [len(P)]
+            if got != lens and not (len(lens) == 1 and got == [n]):
+                return "step %d: repartition to lengths %s gave partitions of lengths %s" % (i, lens, got)
+            if ak.to_list(P) != ak.to_list(whole):
+                return "step %d: repartition changed the values: %s" % (i, json.dumps(ak.to_list(P))[:160])
+            continue
+        f = {"at": lambda x: ak.to_list(x[h["i"]]),
+             "range": lambda x: ak.to_list(x[h["a"]:h["b"]:h["s"]]),
+             "length": lambda x: len(x),
+             "tojson": lambda x: json.loads(ak.to_json(x))}[op]
+        err, out = both(f)
+        if err:
+            return "step %d (%s): %s" % (i, op, err)
+        (okp, vp), (okw, vw) = out
+        if h["exp"] == "error" or okw == 0:
+            if okp == 1:
+                return "step %d (%s): must raise, returned %s" % (i, op, json.dumps(vp)[:120])
+            stats["err_expected"] = stats.get("err_expected", 0) + 1
+            continue
+        if okp != 1:
+            return "step %d (%s %s): raised %s; the whole array answers %s" % (i, op, json.dumps({k: v for k, v in h.items() if k not in ("op", "exp")}), vp, json.dumps(vw)[:120])
+        if vp != vw:
+            return "step %d (%s %s): partitioned %s differs from whole %s" % (i, op, json.dumps({k: v for k, v in h.items() if k not in ("op", "exp")}), json.dumps(vp)[:160], json.dumps(vw)[:160])
+    return None
+
+
+def _fix_shape(n):
+    if n.get("c") == "Numpy" and "shape" not in n:
+        n["shape"] = [len(n["d"])]
+    if "x" in n:
+        _fix_shape(n["x"])
+    return n
